@@ -5348,7 +5348,7 @@ impl<'a> Parser<'a> {
                 for_query: None,
             });
 
-            if self.next_token() != Token::Comma {
+            if !self.consume_token(&Token::Comma) {
                 break;
             }
         }
